@@ -171,7 +171,8 @@ bad('c20-once2', 'C20', 'ONCE', 't2data.py', "cell_index = geo.block_name_index[
 bad('c20-dispatch', 'C20', 'POST', 't2data.py', "                if oldtype == 'AUTOUGH2': self.convert_to_TOUGH2()\n                elif oldtype == 'TOUGH2': self.convert_to_AUTOUGH2()", "                if oldtype == 'TOUGH2': self.convert_to_TOUGH2()\n                elif oldtype == 'AUTOUGH2': self.convert_to_AUTOUGH2()")
 
 # ---- rules added after the second round of seeded changes (mutants differ from the seeds)
-bad('c03-optnum', 'C03', 'NONETEST', 'mulgrids.py', "            if col.surface is None: return lay.top\n", "            if not col.surface: return lay.top\n")
+bad('c04-optnum', 'C04', 'NONETEST', 'mulgrids.py', "            if col.surface is None: return lay.top\n", "            if not col.surface: return lay.top\n")
+bad('c03-optnum', 'C03', 'NONETEST', 'mulgrids.py', "        if val is None: self.default_surface = True\n        else: self.default_surface = False", "        self.default_surface = not val")
 bad('c01-optnum', 'C01', 'NONETEST', 't2data.py', "            if gen.hg is None or gen.hg >= 0:", "            if not gen.hg or gen.hg >= 0:")
 bad('c13-nonetest-any', 'C13', 'NONETEST', 't2incons.py', "if (k1 is None or k2 is None or k3 is None): permeability = None", "if not (k1 and k2 and k3): permeability = None")
 bad('c01-pure', 'C01', 'PURE', 't2data.py', "        genw = copy(gen.__dict__)\n", "        genw = gen.__dict__\n")
